@@ -302,6 +302,25 @@ static std::string make_candidate(std::string const &tok,std::vector<std::string
 		if(kind=="cflip") { std::string s=cookies.at(n); s.at(pos)^=char(1<<bit); return s; }
 		std::string s=ciphers.at(n); s.at(pos)^=char(1<<bit); return "C"+cppcms::b64url::encode(s);
 	}
+	if(kind=="bflip2") {
+		// two single-bit flips in one cipher text: bflip2:<n>:<pos1>:<bit1>:<pos2>:<bit2>
+		std::vector<std::string> q=split_by(rest,':');
+		if(q.size()!=5) throw std::runtime_error("bad flip2");
+		std::string s=ciphers.at(atoi(q[0].c_str()));
+		s.at(atol(q[1].c_str()))^=char(1<<atoi(q[2].c_str()));
+		s.at(atol(q[3].c_str()))^=char(1<<atoi(q[4].c_str()));
+		return "C"+cppcms::b64url::encode(s);
+	}
+	if(kind=="bxor") {
+		// a byte pattern XORed into the cipher text at an offset: bxor:<n>:<pos>:<hex>
+		std::vector<std::string> q=split_by(rest,':');
+		if(q.size()!=3) throw std::runtime_error("bad xor");
+		std::string s=ciphers.at(atoi(q[0].c_str()));
+		std::string pat=unhex(q[2]);
+		size_t pos=atol(q[1].c_str());
+		for(size_t i=0;i<pat.size();i++) s.at(pos+i)^=pat[i];
+		return "C"+cppcms::b64url::encode(s);
+	}
 	throw std::runtime_error("bad candidate kind");
 }
 
